@@ -368,6 +368,53 @@ func inductionPlusOne(v ssa.Value) (ok bool, why string) {
 	return true, "phi(0, v+1)+1: starts at 1, one increment per iteration, single definition"
 }
 
+// cellCounter: v is a load of a local variable of Run whose only assignments
+// are its initialisation to 0 before the accept loop and one `x = x + 1`
+// (all in Run itself), the increment being executed exactly once per
+// iteration before the value is handed to newConn.
+func cellCounter(v ssa.Value, m *serverModel) (bool, string) {
+	ld, ok := v.(*ssa.UnOp)
+	if !ok || ld.Op != token.MUL {
+		return false, ""
+	}
+	al, ok := ld.X.(*ssa.Alloc)
+	if !ok {
+		return false, ""
+	}
+	stores, esc := an.CellStores(al)
+	if esc {
+		return false, ""
+	}
+	head := loopHeadOf(m.accept)
+	var inc *ssa.Store
+	for _, st := range stores {
+		if st.Parent() != m.run {
+			return false, "the counter is assigned from a closure"
+		}
+		if k, isK := an.IntConst(st.Val); isK && k == 0 && loopHeadOf(st) != head {
+			continue
+		}
+		bo, isB := st.Val.(*ssa.BinOp)
+		if !isB || bo.Op != token.ADD || inc != nil {
+			return false, "the counter has another assignment"
+		}
+		k, isK := an.IntConst(bo.Y)
+		l2, isL := bo.X.(*ssa.UnOp)
+		if !isK || k != 1 || !isL || l2.Op != token.MUL || l2.X != ssa.Value(al) {
+			return false, "the counter's assignment is not counter+1"
+		}
+		inc = st
+	}
+	if inc == nil || loopHeadOf(inc) != head || !an.InstrDominates(inc, m.newConn) {
+		return false, "the increment is not executed in every iteration before newConn"
+	}
+	// exactly once per iteration: no path from the increment back to itself without passing the loop head
+	if an.Search(an.After(inc), isInstr(inc), inBlock(head)) != nil {
+		return false, "the increment can run more than once per iteration"
+	}
+	return true, "variable initialised to 0 and assigned only by one `x = x + 1` of Run, executed once per accept-loop iteration before newConn (closures only read it)"
+}
+
 func checkC09(c *Ctx) {
 	R := c.R
 	m := c.serverModel()
@@ -385,6 +432,12 @@ func checkC09(c *Ctx) {
 	// C09-counter
 	idArg := m.newConn.Common().Args[1]
 	ok, why := inductionPlusOne(idArg)
+	if !ok {
+		// the counter kept in a variable cell (it is captured by some closure): same requirement on the cell
+		if ok2, why2 := cellCounter(idArg, m); ok2 {
+			ok, why = true, why2
+		}
+	}
 	if ok {
 		R.OK("C09-counter", "(*Server).Run: connID passed to newConn", c.pos(m.newConn), why)
 	} else {
@@ -849,5 +902,31 @@ func (c *Ctx) checkStopOrder(rule string, m *serverModel) {
 			ok = true // unconditional
 		}
 		R.Check(ok, rule, key, c.pos(call), "on every path reaching Wait with a non-nil "+st.field+", "+st.name+" has been called first", "connWg.Wait can be reached without "+st.name+" having been called: connections are never told to stop / the listener keeps accepting")
+	}
+	// every successful return of Stop has waited: a `return nil` that does not pass connWg.Wait is allowed only
+	// when nothing was ever started (listener == nil && shutdownCancel == nil)
+	nothingStarted := func(b *ssa.BasicBlock) bool {
+		isNilOf := func(field string) bool {
+			return nilFact(b, true, func(x ssa.Value) bool { _, ok := fieldLoad(x, G, "Server", field); return ok })
+		}
+		return isNilOf("listener") && isNilOf("shutdownCancel")
+	}
+	for _, ret := range an.Returns(stop) {
+		if rule != "C12-stop-order" {
+			break // quiescence at return is C12's clause; C11 only needs the order of the steps
+		}
+		res := an.ReturnResults(ret)
+		if len(res) != 1 || !an.IsNilConst(an.Strip(res[0])) {
+			continue // error return: the caller is told Stop did not complete
+		}
+		key := "(*Server).Stop: return nil only after connWg.Wait"
+		switch {
+		case an.Search(an.Entry(stop), isInstr(ret), isInstr(wait)) == nil:
+			R.OK(rule, key, c.pos(ret), "every path to this return passes connWg.Wait()")
+		case nothingStarted(ret.Block()):
+			R.OK(rule, key+" (nothing started)", c.pos(ret), "only when listener == nil and shutdownCancel == nil: Run never got as far as listening")
+		default:
+			R.Fail(rule, key, c.pos(ret), "Stop can return nil without having cancelled the shutdown context and waited for the connections: handlers may still be running and OnClose not yet called when Stop returns: "+c.trail(an.Search(an.Entry(stop), isInstr(ret), isInstr(wait))))
+		}
 	}
 }
